@@ -322,6 +322,8 @@ class ResolveAnchorIds(Transform):
                     reftarget=target,
                     refexplicit=bool(refnode.children),
                 )
+                # so that a later 'target not found' warning points at the link
+                pending.source, pending.line = refnode.source, refnode.line
                 inner_node = nodes.inline(
                     "", "", classes=["xref", "myst"] + refnode["classes"]
                 )
